@@ -5,8 +5,21 @@
 
 package json
 
+import (
+	"strconv"
+	"time"
+
+	"github.com/go-faster/jx"
+)
+
+var _ time.Time
+var _ = strconv.FormatInt
+var _ jx.Decoder
+
 //@ use errors
 //@ use jxnum
+//@ use jxtime
+//@ use strconv
 
 // lastTwo: the two number texts the comparison read from its decoders (ghost log "nums").
 func numL(log []string) []byte { return []byte(log[len(log)-2]) }
@@ -21,3 +34,33 @@ func numR(log []string) []byte { return []byte(log[len(log)-1]) }
 //@   ensures read:     err == nil ==> len(vLogStr("nums")) == len(old(vLogStr("nums"))) + 2
 //@   ensures sound:    err == nil && ok ==> sameNumber(numL(vLogStr("nums")), numR(vLogStr("nums")))
 //@   ensures complete: err == nil && !ok ==> !sameNumber(numL(vLogStr("nums")), numR(vLogStr("nums")))
+
+// ---------------------------------------------------------------------------
+// Unix-time helpers (C13): each decoder reads exactly one integer and builds the instant with the
+// constructor of ITS resolution, with no intermediate arithmetic (so no int64 overflow can change
+// the instant). The constructors themselves are uninterpreted.
+// ---------------------------------------------------------------------------
+
+//@ func DecodeUnixSeconds(d *jx.Decoder) (t time.Time, err error)
+//@   requires dec: d != nil
+//@   modifies log:ints
+//@   ensures one: len(vLogStr("ints")) == len(old(vLogStr("ints"))) + 1
+//@   ensures instant: err == nil ==> vExists(func(v int64) bool { return vTrig(strconv.FormatInt(v, 10)) && vLogStr("ints")[len(vLogStr("ints"))-1] == strconv.FormatInt(v, 10) && t == time.Unix(v, 0) })
+
+//@ func DecodeUnixNano(d *jx.Decoder) (t time.Time, err error)
+//@   requires dec: d != nil
+//@   modifies log:ints
+//@   ensures one: len(vLogStr("ints")) == len(old(vLogStr("ints"))) + 1
+//@   ensures instant: err == nil ==> vExists(func(v int64) bool { return vTrig(strconv.FormatInt(v, 10)) && vLogStr("ints")[len(vLogStr("ints"))-1] == strconv.FormatInt(v, 10) && t == time.Unix(0, v) })
+
+//@ func DecodeUnixMicro(d *jx.Decoder) (t time.Time, err error)
+//@   requires dec: d != nil
+//@   modifies log:ints
+//@   ensures one: len(vLogStr("ints")) == len(old(vLogStr("ints"))) + 1
+//@   ensures instant: err == nil ==> vExists(func(v int64) bool { return vTrig(strconv.FormatInt(v, 10)) && vLogStr("ints")[len(vLogStr("ints"))-1] == strconv.FormatInt(v, 10) && t == time.UnixMicro(v) })
+
+//@ func DecodeUnixMilli(d *jx.Decoder) (t time.Time, err error)
+//@   requires dec: d != nil
+//@   modifies log:ints
+//@   ensures one: len(vLogStr("ints")) == len(old(vLogStr("ints"))) + 1
+//@   ensures instant: err == nil ==> vExists(func(v int64) bool { return vTrig(strconv.FormatInt(v, 10)) && vLogStr("ints")[len(vLogStr("ints"))-1] == strconv.FormatInt(v, 10) && t == time.UnixMilli(v) })
